@@ -156,6 +156,8 @@ def plan(prop):
     if prop == 'C18':
         import ieee_obligations as io
         obs.append(('rosomaxa', lambda ctx: io.ob_max_generation(ctx)))
+        for sample, n_obj in (((2, 1), (2, 2), (3, 2)) if Q else ((1, 1), (2, 1), (2, 2), (3, 2), (3, 3), (4, 2), (5, 1))):
+            obs.append(('rosomaxa', lambda ctx, s_=sample, n=n_obj: io.ob_min_variation_sample(ctx, s_, n)))
     if prop == 'C09':
         import ieee_obligations as io
         for n in ((1, 2) if Q else (1, 2, 3)):
